@@ -25,7 +25,7 @@ FILES = {
     "src/generators/dset_generators.rs": ["C06"],
     "src/util/backtrack.rs": ["C06", "C07"],
     "src/generators/dsym_generators.rs": ["C07"],
-    "src/delaney2d.rs": ["C08", "C07", "C15"],
+    "src/delaney2d.rs": ["C08", "C07", "C15", "C17"],
     "src/fundamental_group.rs": ["C09", "C16"],
     "src/fpgroups/free_words.rs": ["C10"],
     "src/fpgroups/cosets.rs": ["C11", "C12", "C13"],
